@@ -123,6 +123,7 @@ class GenSource(object):
         self.made = 0
         self.queues = {}
         self.want_name = None
+        self.last_mutated = None
         # affinity: which catalogue entries enter which pymeeus functions (measured by ./check calibrate);
         # used to make overlapping calls share code, which is where per-function scratch state would bite
         self.funcs = funcs or {}
@@ -189,6 +190,17 @@ class GenSource(object):
             return None
         h, kind = c[rng.randrange(len(c))]
         g = G(rng, pool, task, 0.0)
+        if hids is not None:
+            # re-target an ARGUMENT of an earlier call only slightly: the repeated call must stay inside the
+            # conservative domain its generator chose (any change at all is visible bit for bit)
+            o = pool.handles[h]
+            self.last_mutated = id(o)
+            if kind == 'Angle':
+                x = float(o)
+                return {'name': 'Angle.set', 'recv': {'h': h},
+                        'args': [g.fv(x + rng.choice([-1, 1]) * rng.choice([1e-9, 1e-6, 1e-4]))], 'kwargs': {}}
+            return {'name': 'Epoch.set', 'recv': {'h': h},
+                    'args': [g.fv(o.jde() + rng.choice([-1, 1]) * rng.choice([1e-5, 1e-2, 0.4]))], 'kwargs': {}}
         if kind == 'Angle':
             r = rng.random()
             if r < 0.4:
@@ -199,6 +211,38 @@ class GenSource(object):
                 return {'name': 'Angle.set_tolerance', 'recv': {'h': h}, 'args': [g.fv(10 ** rng.uniform(-6, -1))], 'kwargs': {}}
             return {'name': 'Angle.set_radians', 'recv': {'h': h}, 'args': [g.num(-6, 6)], 'kwargs': {}}
         return {'name': 'Epoch.set', 'recv': {'h': h}, 'args': [g.f(2.0e6, 2.9e6)], 'kwargs': {}}
+
+    @staticmethod
+    def _core(val):
+        return dict((k, copy.deepcopy(val[k])) for k in ('name', 'recv', 'args', 'kwargs'))
+
+    def _args_unchanged(self, sim, val):
+        """A queued repeat is only issued if every pooled object it refers to still holds the value it had at the
+        first call (apart from the one object the script itself re-targeted slightly): another task may have
+        applied a documented mutator in between, and the generator's domain choice was made for the old value."""
+        from .snap import snap
+        for hid, s0 in (val.get('_snaps') or {}).items():
+            o = sim.pool.handles.get(hid)
+            if o is None:
+                return False
+            if snap(o) != s0 and id(o) != self.last_mutated:
+                return False
+        return True
+
+    def _snaps(self, sim, rep):
+        from .snap import snap
+        out = {}
+
+        def walk(e):
+            if isinstance(e, dict):
+                if 'h' in e and e['h'] in sim.pool.handles:
+                    out[e['h']] = snap(sim.pool.handles[e['h']])
+                for x in e.get('items', ()):
+                    walk(x)
+        for x in [rep.get('recv')] + list(rep['args']) + list(rep['kwargs'].values()):
+            if x:
+                walk(x)
+        rep['_snaps'] = out
 
     def _perturb(self, core):
         """Neighbouring arguments: one numeric literal (or the value of one inline Angle/Epoch) moved a little.
@@ -320,15 +364,19 @@ class GenSource(object):
                     sim.count('probe.mutator_on_argument_then_repeat')
                     return self._finish(op, task, depth)
             elif what == 'near':
+                if not self._args_unchanged(sim, val):
+                    continue
                 sim.count('probe.call_repeated_with_neighbouring_arguments')
-                return self._finish(self._perturb(copy.deepcopy(val)), task, depth)
+                return self._finish(self._perturb(self._core(val)), task, depth)
             elif what == 'edit':
                 op = self._edit_list(sim, task, val)
                 if op is not None:
                     return self._finish(op, task, depth)
             elif what == 'repeat':
+                if not self._args_unchanged(sim, val):
+                    continue
                 sim.count('probe.call_repeated_with_equal_arguments')
-                return self._finish(copy.deepcopy(val), task, depth)
+                return self._finish(self._core(val), task, depth)
             elif what == 'life':
                 op = self._life_step(sim, task, depth, *val)
                 if op is not None:
@@ -402,6 +450,7 @@ class GenSource(object):
                                 if isinstance(x, dict) and 'h' in x]
                         if hids:
                             q.append(('mutate_arg', hids))
+                self._snaps(sim, rep)
                 r3 = rng.random()
                 if r3 < 0.25:
                     q.append(('again', name))      # same callable, freshly generated arguments
